@@ -61,6 +61,29 @@ def rx_strategy():
     return case()
 
 
+def retained_octets(obj, depth=2):
+    """octets held in bytes-like attributes of a protocol object (its buffers), found generically: bytes / bytearray / memoryview values, containers of
+    them, and one level of helper objects"""
+    import collections
+    seen, total, stack = set(), 0, [(obj, 0)]
+    while stack:
+        o, dep = stack.pop()
+        if id(o) in seen:
+            continue
+        seen.add(id(o))
+        if isinstance(o, (bytes, bytearray, memoryview)):
+            total += len(o)
+        elif isinstance(o, (list, tuple, collections.deque, set)):
+            if len(o) <= 100000:
+                stack.extend((x, dep) for x in o)
+        elif isinstance(o, dict):
+            stack.extend((x, dep) for x in o.values())
+        elif hasattr(o, "__dict__") and dep < depth and type(o).__module__.startswith(("autobahn", "checks", "harness")) is not False:
+            if dep < depth and not isinstance(o, type):
+                stack.extend((x, dep + 1) for k, x in vars(o).items() if k not in ("factory", "transport", "log"))
+    return total
+
+
 def stored_deflate(total, plain_source):
     """a permessage-deflate message body (RFC 7692 7.2.1: raw deflate stream with the trailing 00 00 ff ff removed) of exactly `total` wire
     octets, made of stored blocks only; returns (wire, plaintext) or None when `total` cannot be met (1 < total < 6)"""
@@ -148,9 +171,15 @@ def check_receive(c):
                 header_only_seen = True
                 early = check_failed_now(rx, c, "after the header of the offending frame (msg %d frame %d: frame %d bytes, running total %d)" % (
                     mi, k, len(part), sum(len(p) for p in parts[:k + 1])))
-                # now the payload and the rest arrive anyway
+                # now the payload and the rest arrive anyway - and are not kept: the frame was refused "before its payload is buffered"
                 body = ref6455.encode_frame(op, part, fin=fin, mask=mk, rsv=rsv)[len(hdr):]
-                rx.feed(body)
+                held0 = retained_octets(rx.side.proto)
+                rx.feed(body[:-1])                 # (measured while the frame is still incomplete)
+                held1 = retained_octets(rx.side.proto)
+                rx.feed(body[-1:])
+                if len(body) >= 4096 and held1 - held0 > 1024 and not rx.ep.loss_delivered and not rx.ep.drop_requested:      # (after an abort no real transport delivers more reads)
+                    raise Violation("C16|rx|payload-of-refused-frame-buffered", "after the connection was failed at the header, %d further payload octets were fed: the protocol object now holds %d octets more than before" % (
+                        len(body), held1 - held0), c)
                 failed = True
             else:
                 rx.feed(ref6455.encode_frame(op, part, fin=fin, mask=mk, rsv=rsv))
